@@ -26,30 +26,33 @@ type LoopSpec struct {
 	Modifies   []*Clause
 	Unroll     int
 	Decreases  *Clause
+	Steps      []*Clause // per-iteration two-state contracts (old = start of the iteration)
+	XSteps     []*Clause // must hold when the function panics during an iteration
 }
 
 type Contract struct {
-	Kind     string // func | iface | extern
-	Target   string
-	Pkg      string // package path the contract file belongs to ("" for trusted files => resolved by Target)
-	Requires []*Clause
-	Ensures  []*Clause
-	XEnsures []*Clause
-	Panics   []*Clause
-	Cases    []*Clause // call sites fork on these conditions (keeps callee-dependent offsets concrete)
-	Forwards []*ForwardCase
-	Modifies []*Clause
-	Lets     []*Clause // Text = name, E = expr
-	MayPanic bool
-	Inline   bool
-	Trusted  bool
-	NoReturn bool // always panics
-	Pure     bool
-	Havoc    bool // uncontracted callees are treated as may-panic + havoc everything (C07 style)
-	Loops    map[int]*LoopSpec
-	File     string
-	Line     int
-	Used     bool
+	Kind          string // func | iface | extern
+	Target        string
+	Pkg           string // package path the contract file belongs to ("" for trusted files => resolved by Target)
+	Requires      []*Clause
+	Ensures       []*Clause
+	XEnsures      []*Clause
+	Panics        []*Clause
+	Cases         []*Clause // call sites fork on these conditions (keeps callee-dependent offsets concrete)
+	Forwards      []*ForwardCase
+	Modifies      []*Clause
+	Lets          []*Clause // Text = name, E = expr
+	MayPanic      bool
+	Inline        bool
+	Trusted       bool
+	NoReturn      bool // always panics
+	Pure          bool
+	Havoc         bool // uncontracted callees are treated as may-panic + havoc everything (C07 style)
+	RuntimePanics bool // run-time panics of the body are exceptional exits, not violations
+	Loops         map[int]*LoopSpec
+	File          string
+	Line          int
+	Used          bool
 }
 
 type GhostDecl struct {
@@ -80,17 +83,26 @@ type Lemma struct {
 }
 
 type ContractSet struct {
-	Funcs   map[string]*Contract // key: pkgpath + "::" + target, e.g. ".../cbe::(*Writer).WriteType"
-	Ifaces  map[string]*Contract // key: "io.Writer.Write"
-	Ghosts  map[string]*GhostDecl
-	Specs   map[string]*SpecFn
-	Lemmas  map[string]*Lemma
-	ConstGl map[string]bool // pkgpath::name of globals treated as constant after init
-	macros  map[string]*macroDef
+	Funcs     map[string]*Contract // key: pkgpath + "::" + target, e.g. ".../cbe::(*Writer).WriteType"
+	Ifaces    map[string]*Contract // key: "io.Writer.Write"
+	Ghosts    map[string]*GhostDecl
+	Specs     map[string]*SpecFn
+	Lemmas    map[string]*Lemma
+	ConstGl   map[string]bool // pkgpath::name of globals treated as constant after init
+	macros    map[string]*macroDef
 	LogIfaces map[string]bool     // "events.DataEventReceiver": calls are recorded in the ghost event log
 	Closed    map[string][]string // "rules.EventRule" -> names of the package-level singletons implementing it
-	Files   []string
-	Errors  []string
+	Files     []string
+	Errors    []string
+	// checks over the SSA of whole packages (no recover; a call only from listed functions)
+	Structural []*StructuralCheck
+}
+
+type StructuralCheck struct {
+	Name string
+	Text string
+	File string
+	Line int
 }
 
 func NewContractSet() *ContractSet {
@@ -102,8 +114,8 @@ func NewContractSet() *ContractSet {
 var ctPrefix = regexp.MustCompile(`^\s*//\s?@ ?(.*)$`)
 
 var clauseKeywords = map[string]bool{"requires": true, "ensures": true, "xensures": true, "panics": true, "may_panic": true,
-	"modifies": true, "inline": true, "trusted": true, "loop": true, "let": true, "noreturn": true, "pure": true, "havoc_callees": true, "use": true, "cases": true, "forwards": true}
-var topKeywords = map[string]bool{"func": true, "iface": true, "extern": true, "ghost": true, "spec": true, "lemma": true, "const_global": true, "macro": true, "iface_log": true, "closed_world": true}
+	"modifies": true, "inline": true, "trusted": true, "loop": true, "let": true, "noreturn": true, "pure": true, "havoc_callees": true, "runtime_panics": true, "use": true, "cases": true, "forwards": true}
+var topKeywords = map[string]bool{"func": true, "iface": true, "extern": true, "ghost": true, "spec": true, "lemma": true, "const_global": true, "macro": true, "iface_log": true, "closed_world": true, "structural": true}
 
 // ParseContractFile parses one file. pkgPath is the import path the file belongs to (used to
 // resolve unqualified identifiers); for files outside /repo pass "".
@@ -342,6 +354,15 @@ func (cs *ContractSet) ParseContractText(data, path, pkgPath string) error {
 			for _, n := range strings.Fields(strings.ReplaceAll(s.rest, ",", " ")) {
 				cs.LogIfaces[n] = true
 			}
+		case "structural":
+			// structural NAME: no_recover PKG [except PREFIX...]
+			// structural NAME: only_callers IFACE.METHOD in PKG: FUNC...
+			cur = nil
+			k := strings.Index(s.rest, ":")
+			if k < 0 {
+				return fail(s.line, "structural NAME: check ...")
+			}
+			cs.Structural = append(cs.Structural, &StructuralCheck{Name: strings.TrimSpace(s.rest[:k]), Text: strings.TrimSpace(s.rest[k+1:]), File: path, Line: s.line})
 		case "closed_world":
 			cur = nil
 			f := strings.Fields(s.rest)
@@ -425,6 +446,10 @@ func (cs *ContractSet) ParseContractText(data, path, pkgPath string) error {
 				cur.Pure = true
 			case "havoc_callees":
 				cur.Havoc = true
+			case "runtime_panics":
+				// run-time panics (index, nil, makeslice, …) in this body are exceptional exits that
+				// must satisfy the exceptional postcondition, not violations
+				cur.RuntimePanics = true
 			case "loop":
 				f := strings.SplitN(s.rest, " ", 3)
 				if len(f) < 3 {
@@ -464,6 +489,20 @@ func (cs *ContractSet) ParseContractText(data, path, pkgPath string) error {
 						return err
 					}
 					ls.Decreases = c
+				case "step":
+					// two-state per-iteration contract: old() is the state at the start of the iteration
+					c, err := mkClause("step", f[2], s.line)
+					if err != nil {
+						return err
+					}
+					ls.Steps = append(ls.Steps, c)
+				case "xstep":
+					// holds whenever the function panics during an iteration (old = start of that iteration)
+					c, err := mkClause("xstep", f[2], s.line)
+					if err != nil {
+						return err
+					}
+					ls.XSteps = append(ls.XSteps, c)
 				default:
 					return fail(s.line, "unknown loop clause %q", f[1])
 				}
